@@ -5,7 +5,6 @@ import (
 	"go/constant"
 	"go/token"
 	"go/types"
-	"sort"
 	"strings"
 
 	"golang.org/x/tools/go/ssa"
@@ -143,23 +142,18 @@ func endsInPanic(b *ssa.BasicBlock) bool {
 
 func exhU(r *engine.Run) {
 	const rule = "EXH-U"
-	want := map[string]int{"getNodeValueRaw": 1, "insertAtNode": 1, "deleteAtNode": 3, "insertAfterPathTraversal": 1, "deleteAfterPathTraversal": 1, "iterate": 1}
-	var names []string
-	for k := range want {
-		names = append(names, k)
-	}
-	sort.Strings(names)
+	// every method of the trie that dispatches on the kind of a node; the
+	// count is checked over the whole set (a dispatch may move between helpers)
 	total := 0
-	for _, name := range names {
-		f := r.Fn(rule, pkgUtil, "MerklePatriciaTrie", name)
-		if f == nil {
+	for _, f := range mptFuncs(r) {
+		if recvNamed(engine.TopFunc(f)) != "MerklePatriciaTrie" {
 			continue
 		}
 		ds := dispatches(f, pkgUtil, "Node")
-		if len(ds) < want[name] {
-			r.Anchor(rule, fmt.Errorf("unresolved anchor: %s has %d node-kind dispatches, %d confirmed by reading", fn(f), len(ds), want[name]))
-		}
 		for i, d := range ds {
+			if len(d.arms) < 2 {
+				continue // a single comma-ok assertion, not a kind dispatch
+			}
 			total++
 			construct := fmt.Sprintf("%s|dispatch#%d", fn(f), i+1)
 			pos := r.P.Pos(d.last.Pos())
@@ -193,7 +187,7 @@ func exhU(r *engine.Run) {
 		}
 	}
 	if total < 8 {
-		r.Anchor(rule, fmt.Errorf("unresolved anchor: %d dispatches analysed, 8 confirmed by reading", total))
+		r.Anchor(rule, fmt.Errorf("unresolved anchor: %d node-kind dispatches found in the trie's methods, at least 8 confirmed by reading", total))
 	}
 }
 
